@@ -156,6 +156,17 @@ def check(ctx):
                     if not (isinstance(pst, ast.Assign) and isinstance(pst.targets[0], ast.Name)):
                         continue  # the stall statistic (history base first) is not a move decision
                     bb = bind_args(imp, c)
+                    base_ = bb.get(ps[0])
+                    if isinstance(base_, ast.Name):
+                        # the estimate read into a local before the loop: the same thing as long as nothing re-assigns
+                        # self.fval between that read and this call
+                        from .common import attr_stable_between, enclosing_stmt
+
+                        dd_ = reaching_assignments(prog, caller, base_.id, c)
+                        if len(dd_) == 1 and canon(dd_[0]) == "self.fval" and attr_stable_between(prog, caller, "fval", enclosing_stmt(prog, dd_[0]), c):
+                            base_ = dd_[0]
+                    bb = dict(bb)
+                    bb[ps[0]] = base_
                     ctx.check(canon(bb.get(ps[0])) == "self.fval", caller, c, "incumbent estimate passed as f_base", f"the improvement of a candidate is computed against '{canon(bb.get(ps[0]))}', not the incumbent estimate", construct=f"improvement base {canon(bb.get(ps[0]))}")
     # strictness of moves
     ss, pstep = R.search_step, R.poll_step
